@@ -96,6 +96,14 @@ func newMachine(rt *rapid.T, o machineOpts) *machine {
 		}
 		sources = append(sources, &SourceCfg{Name: fmt.Sprintf("src%d", i+1), ChainID: chainID, Batch: batch, Conc: conc, Node: sim.NewNode(sim.NewChain()),
 			TwoURLs: rapid.IntRange(0, 3).Draw(rt, "twourls") == 0})
+		if rapid.IntRange(0, 3).Draw(rt, "strayrange") == 0 {
+			sc := sources[len(sources)-1]
+			sc.StrayStart = uint64(rapid.IntRange(1, 6).Draw(rt, "straystart"))
+			if rapid.Bool().Draw(rt, "straystop") {
+				sc.StrayStop = sc.StrayStart + uint64(rapid.IntRange(0, 4).Draw(rt, "straystoplen"))
+			}
+			m.label("range-on-source-entry")
+		}
 		switch {
 		case batch < conc:
 			m.label("batch<conc")
